@@ -336,6 +336,94 @@ func c24(x *Ctx) {
 	}
 	c.Min(r0, 5)
 
+	// ---- R0b: whether the key ID is looked up depends only on key IDs being configured -------------------------------
+	const r0b = "C24.has-key-ids-predicate"
+	if hk := x.P.Func("config", "AccessKeyConfig", "HasKeyIDs"); hk != nil && hk.Blocks != nil {
+		c.Examined++
+		idsF := eng.FieldIs("config", "AccessKeyConfig", "ReceiveKeyIDs")
+		isLen := func(w ssa.Value) bool {
+			cl, ok := w.(*ssa.Call)
+			if !ok {
+				return false
+			}
+			bi, ok := cl.Call.Value.(*ssa.Builtin)
+			return ok && bi.Name() == "len" && loadsField(cl.Call.Args[0], idsF)
+		}
+		zero := int64(0)
+		for _, sc := range []struct {
+			name string
+			rel  eng.RelSet
+			want eng.Tri
+		}{{"configured", eng.GT, eng.True}, {"not-configured", eng.EQ, eng.False}} {
+			as := &eng.Assume{Bool: func(v ssa.Value) eng.Tri {
+				return eng.EvalRel(v, []eng.RelFact{{A: isLen, BConst: &zero, Rel: sc.rel}})
+			}}
+			r := eng.Explore(eng.Query{Fn: hk, Assume: as, TrackPhi: func(*ssa.Phi) bool { return true }})
+			ok, n := true, 0
+			for _, e := range r.Exits {
+				if ret, isRet := e.Instr.(*ssa.Return); isRet && len(ret.Results) == 1 {
+					n++
+					if e.Facts.Bool(e.Facts.Resolve(ret.Results[0])) != sc.want {
+						ok = false
+					}
+				}
+			}
+			c.Decide(ok && n > 0, r0b, "HasKeyIDs/"+sc.name, x.PosOf(hk.Pos()), "depends on ReceiveKeyIDs being configured only",
+				"HasKeyIDs does not answer '"+map[eng.Tri]string{eng.True: "yes", eng.False: "no"}[sc.want]+"' on every path when key IDs are "+sc.name+" (it also looks at the mode or at AcceptOnlyListedKeys): every endpoint uses it to decide whether to resolve the client's key ID, so in the modes it forgets a key listed by its ID is treated as unlisted and replaced")
+		}
+	}
+
+	// ---- R0c: the configured key lists are never written after loading --------------------------------------------------
+	const r0c = "C24.key-lists-immutable"
+	{
+		listF := eng.FieldIs("config", "AccessKeyConfig", "ReceiveKeys", "ReceiveKeyIDs")
+		n := 0
+		for _, f := range x.RepoFuncs() {
+			eng.Instrs(f, func(in ssa.Instruction) {
+				st, ok := in.(*ssa.Store)
+				if !ok {
+					return
+				}
+				ia, ok := st.Addr.(*ssa.IndexAddr)
+				if !ok {
+					return
+				}
+				if _, d := eng.Derives(ia.X, func(v ssa.Value) bool { return loadsField(v, listF) }, eng.FlowOpts{}); !d {
+					return
+				}
+				n++
+				c.Examined++
+				c.Violate(r0c, BaseName(f)+"/element-store", x.Pos(in), "an element of the configured ReceiveKeys / ReceiveKeyIDs list is overwritten: GetAccessKeyConfig hands out a struct copy whose slices share their backing array with the live configuration, so the change (e.g. masking keys for a report) alters which keys every endpoint accepts and replaces")
+			})
+		}
+		if n == 0 {
+			c.Hold(r0c, "AccessKeyConfig/lists", "config/file_config.go", "no store into elements of the configured key lists")
+		}
+	}
+
+	// ---- R0d: the middleware does not remove the client's key header ------------------------------------------------------
+	const r0d = "C24.key-header-kept"
+	for f := range entries {
+		if !strings.Contains(FName(f), "apiKeyProcessor") {
+			continue
+		}
+		c.Examined++
+		var del ssa.Instruction
+		eng.Instrs(f, func(in ssa.Instruction) {
+			if cl, ok := eng.IsCall(in, "(net/http.Header).Del"); ok {
+				if k, ok := eng.ConstString(eng.CallArgs(cl)[0]); ok && strings.Contains(strings.ToLower(k), "team") {
+					del = in
+				}
+			}
+		})
+		p := x.PosOf(f.Pos())
+		if del != nil {
+			p = x.Pos(del)
+		}
+		c.Decide(del == nil, r0d, BaseName(eng.Root(f)), p, "the key headers of the request are only ever set, never deleted",
+			"the middleware deletes an API-key header of the request: when the key is not replaced (the replacement equals the client's key) nothing puts it back, so the handlers downstream read a blank key and the event leaves Refinery without an API key")
+	}
+
 	// ---- R3 --------------------------------------------------------------------------------------
 	const r3 = "C24.R3-blank-key-blocked"
 	for f := range entries {
